@@ -60,6 +60,7 @@ Outcome(s, d) ==
                          [] d = "ptr_slice_string" \/ d = "ptr_slice_any" -> "ok"   \* appended
                          [] d = "ptr_" \o s -> "ok"
                          [] d = "ptr_slice_" \o s -> "ok"
+                         [] s = "int" /\ d \in {"ptr_float", "ptr_slice_float"} -> "ok"    \* an integer is a value of a float (as for yaml.v3; finding F27)
                          [] OTHER -> "ErrIncompatibleTypes")
 
 (* ---------------- scalar steps ---------------- *)
